@@ -6,6 +6,7 @@ import (
 	"bufio"
 	"encoding/json"
 	"fmt"
+	"io"
 	"math/big"
 	"math/rand"
 	"os"
@@ -325,4 +326,32 @@ func PreimageForOutput(k, out *big.Int) (*big.Int, bool) {
 		}
 	}
 	return nil, false
+}
+
+// chunkReader delivers data in pieces of at most chunk bytes: a legal io.Reader (pipes, sockets and
+// iotest.OneByteReader behave like this); callers that need n bytes must use io.ReadFull.
+type chunkReader struct {
+	data  []byte
+	chunk int
+}
+
+func (c *chunkReader) Read(p []byte) (int, error) {
+	if len(c.data) == 0 {
+		return 0, io.EOF
+	}
+	n := len(p)
+	if n > c.chunk {
+		n = c.chunk
+	}
+	if n > len(c.data) {
+		n = len(c.data)
+	}
+	copy(p, c.data[:n])
+	c.data = c.data[n:]
+	return n, nil
+}
+
+// Entropy is an entropy source that yields exactly data, in pieces of a size drawn from {1, 7, 31, all}.
+func (r *Rng) Entropy(data []byte) io.Reader {
+	return &chunkReader{data: append([]byte(nil), data...), chunk: []int{1, 7, 31, len(data) + 1}[r.Intn(4)]}
 }
